@@ -3,7 +3,10 @@ use super::scheduler_future::*;
 use futures::prelude::*;
 use futures::task;
 use futures::task::{Poll};
+#[cfg(not(desync_verif))]
 use futures::channel::oneshot;
+#[cfg(desync_verif)]
+use crate::vsched::oneshot;
 
 use std::mem;
 use std::pin::*;
